@@ -84,6 +84,17 @@ enum J {
 }
 
 impl J {
+    /// some object of the document repeats a key (only the text path of serde_json shows that to the visitors)
+    fn has_repeated_key(&self) -> bool {
+        match self {
+            J::Obj(es) => {
+                let mut seen = std::collections::HashSet::new();
+                es.iter().any(|(k, v)| !seen.insert(k.as_str()) || v.has_repeated_key())
+            }
+            J::Arr(xs) => xs.iter().any(|v| v.has_repeated_key()),
+            _ => false,
+        }
+    }
     fn write(&self, out: &mut String) {
         match self {
             J::Raw(r) => out.push_str(r),
@@ -205,6 +216,17 @@ struct Ctx {
     out: Out,
     rng: Rng,
     thorough: bool,
+    /// children that died in a batch but answered when their document was run alone (load / memory pressure)
+    inconclusive_kills: u64,
+    /// documents whose handling requested a large allocation that the size of the document itself justifies
+    large_allocations: u64,
+    /// layout / render errors seen per kind of error site, for the evidence
+    layout_errors: u64,
+}
+
+/// an allocation is backed by the document when it is proportional to the bytes the document itself carries
+fn alloc_backed(max_req: usize, doc_len: usize) -> bool {
+    max_req <= 64 * doc_len + (1 << 20)
 }
 
 include!("c19/part_a.rs");
